@@ -190,7 +190,7 @@ package zapcore
 //@   ensures result != nil
 
 //@ func (*zapcore.BufferedWriteSyncer).initialize
-//@   props C12
+//@   props C12 C09
 //@   flags nopanic
 //@   requires s != nil && held(&s.mu) && !s.initialized && s.WS != nil
 //@   modifies s.Clock, s.ticker, s.writer, s.stop, s.done, s.initialized, pend[s.writer], sunk[s.writer], $user
@@ -233,8 +233,9 @@ package zapcore
 //@   ensures old(s.initialized) && result == nil ==> FL.ret0[0] == nil && SY.ret0[0] == nil
 
 //@ func (*zapcore.BufferedWriteSyncer).flushLoop
-//@   props C12
+//@   props C12 C09
 //@   flags nopanic
+//@   nolock &s.mu
 //@   requires s != nil && s.initialized && s.ticker != nil && s.done != nil && !closed(s.done) && s.WS != nil && !held(&s.mu)
 //@   requires s.initialized ==> s.writer != nil && 0 <= s.writer.n && s.writer.n <= len(s.writer.buf) && len(pend[s.writer]) == s.writer.n
 //@   loop 1 invariant s.initialized && s.ticker == old(s.ticker) && s.ticker != nil && s.done == old(s.done) && !closed(s.done) && s.WS != nil && !held(&s.mu)
@@ -256,6 +257,7 @@ package zapcore
 //@ func (*zapcore.BufferedWriteSyncer).Stop
 //@   props C12 C09
 //@   flags nopanic
+//@   nolock &s.mu
 //@   requires s != nil && !held(&s.mu) && s.WS != nil
 //@   requires s.initialized ==> s.writer != nil && s.ticker != nil && s.stop != nil && s.done != nil && (s.stopped <==> closed(s.stop)) && 0 <= s.writer.n && s.writer.n <= len(s.writer.buf) && len(pend[s.writer]) == s.writer.n
 //@   track SY = call (*zapcore.BufferedWriteSyncer).Sync
@@ -730,11 +732,6 @@ package zapcore
 //@   ensures typeof(result) == type(*levelFilterCore) && fresh(as(result, type(*levelFilterCore))) && as(result, type(*levelFilterCore)).core == W.ret0[0] && as(result, type(*levelFilterCore)).level == old(c.level)
 //@   ensures *c == old(*c)
 
-//@ func zapcore.NewLazyWith
-//@   props C07
-//@   flags nopanic
-//@   modifies nothing
-//@   ensures typeof(result) == type(*lazyWithCore) && fresh(as(result, type(*lazyWithCore))) && as(result, type(*lazyWithCore)).Core == core && as(result, type(*lazyWithCore)).fields == fields
 
 // ---------------------------------------------------------------------------
 // Constructors of the core combinators (C05, C07, C11): nothing is dropped or reordered.
@@ -821,3 +818,76 @@ package zapcore
 //@   flags nopanic
 //@   modifies nothing
 //@   ensures fresh(result)
+
+//@ guarded zapcore.BufferedWriteSyncer.initialized by mu props C09
+//@ guarded zapcore.BufferedWriteSyncer.stopped by mu props C09
+//@ guarded zapcore.BufferedWriteSyncer.writer by mu props C09
+
+// ---------------------------------------------------------------------------
+// lazy_with.go (C07, C09): once-only deferred With
+
+//@ onceinit zapcore.lazyWithCore.core by Once props C09 C07
+
+//@ func zapcore.NewLazyWith
+//@   props C07 C09
+//@   flags nopanic
+//@   modifies nothing
+//@   ensures typeof(result) == type(*lazyWithCore) && fresh(as(result, type(*lazyWithCore))) && as(result, type(*lazyWithCore)).originalCore == core && as(result, type(*lazyWithCore)).fields == fields && as(result, type(*lazyWithCore)).core == nil
+
+// The fields are handed to the wrapped core exactly once, at first use.
+//@ func (*zapcore.lazyWithCore).initOnce$1
+//@   props C07 C09
+//@   flags nopanic
+//@   requires *d != nil && d.originalCore != nil && !once(&d.Once)
+//@   track W = invoke zapcore.Core.With
+//@   modifies d.core, $user, comp(E:uint8), comp(E:zapcore.Core), fields(zapcore.Field)
+//@   ensures #W == 1 && W.recv[0] == old(d.originalCore) && W.arg0[0] == old(d.fields) && d.core == W.ret0[0]
+//@   ensures d.core != nil
+//@   ensures elems_frame(type(zapcore.Core), zero(type([]zapcore.Core)))
+
+//@ func (*zapcore.lazyWithCore).initOnce
+//@   props C07 C09
+//@   flags nopanic
+//@   requires d != nil && d.originalCore != nil && (once(&d.Once) ==> d.core != nil)
+//@   modifies d.core, once(&d.Once), $user, comp(E:uint8), comp(E:zapcore.Core), fields(zapcore.Field)
+//@   ensures once(&d.Once) && d.core != nil
+//@   ensures elems_frame(type(zapcore.Core), zero(type([]zapcore.Core)))
+//@   ensures old(once(&d.Once)) ==> d.core == old(d.core)
+//@   ensures d.originalCore == old(d.originalCore) && d.fields == old(d.fields)
+
+//@ func (*zapcore.lazyWithCore).Enabled
+//@   props C09 C05
+//@   flags nopanic
+//@   requires d != nil && d.originalCore != nil
+//@   modifies nothing
+//@   ensures result == enabled(d.originalCore, level)
+
+//@ func (*zapcore.lazyWithCore).Check
+//@   props C09 C05 C07
+//@   flags nopanic
+//@   requires d != nil && d.originalCore != nil && (once(&d.Once) ==> d.core != nil)
+//@   requires ce != nil ==> forall i int :: 0 <= i && i < len(ce.cores) ==> ce.cores[i] != nil
+//@   track CK = invoke zapcore.Core.Check
+//@   ensures #CK == 1 && CK.arg0[0] == e && CK.arg1[0] == ce && result == CK.ret0[0]
+//@   ensures old(once(&d.Once)) ==> CK.recv[0] == old(d.core)
+
+//@ func (*zapcore.lazyWithCore).With
+//@   props C09 C07
+//@   flags nopanic
+//@   requires d != nil && d.originalCore != nil && (once(&d.Once) ==> d.core != nil)
+//@   track W = invoke zapcore.Core.With
+//@   ensures #W >= 1 && W.arg0[#W - 1] == fields && result == W.ret0[#W - 1]
+
+//@ func (*zapcore.lazyWithCore).Write
+//@   props C09
+//@   flags nopanic
+//@   requires d != nil && d.originalCore != nil && (once(&d.Once) ==> d.core != nil)
+//@   track WR = invoke zapcore.Core.Write
+//@   ensures #WR == 1 && WR.arg0[0] == e && WR.arg1[0] == fields && result == WR.ret0[0]
+
+//@ func (*zapcore.lazyWithCore).Sync
+//@   props C09
+//@   flags nopanic
+//@   requires d != nil && d.originalCore != nil && (once(&d.Once) ==> d.core != nil)
+//@   track SY = invoke zapcore.Core.Sync
+//@   ensures #SY == 1 && result == SY.ret0[0]
